@@ -9,7 +9,7 @@ VARIABLES l, c
 TInit == /\ l \in Starts
          /\ c = IF Trace[l].fn \in ListFns THEN CList(Trace[l])
                 ELSE IF InCases(CaseOf(Trace[l])) THEN CReset(Trace[l])
-                ELSE Bad("harness: case not in the specification's case space")
+                ELSE Bad("harness: case outside the spec")
 TNext == /\ ~IsBad(c)
          /\ l + 1 <= Len(Trace)
          /\ Trace[l + 1].ev # "reset"
